@@ -7,15 +7,6 @@ import Ctrmml.Proofs.MdsReadEnc
 namespace Ctrmml.MdsRead
 open Ctrmml Ctrmml.Mds Ctrmml.Seq Ctrmml.SeqWf Ctrmml.MdsResolve Ctrmml.Codec Tables
 
-/-- the events `convert_track` has a defined meaning for: a loop point, rests / ties / notes
-(length 0 allowed: they emit nothing), and every command of its `switch` — arguments 16 bits wide -/
-def okEv (ev : MEv) : Bool :=
-  decide (ev.arg ≤ 65535) &&
-  ((ev.type == mds_SEGNO && ev.arg == 0) || (decide (mds_REST ≤ ev.type) && decide (ev.type < mds_SLR)) ||
-   ev.type == mds_SLR || ev.type == mds_FINISH || byteArgOps.contains ev.type || wordArgOps.contains ev.type ||
-   ev.type == mds_MTAB || ev.type == mds_INS || ev.type == mds_PCM || ev.type == mds_PEG || ev.type == mds_JUMP ||
-   ev.type == mds_PAT || ev.type == mds_LP || ev.type == mds_LPB || ev.type == mds_LPF)
-
 /-- the instruction the decoder sees for an event, as far as it matters to it: opcode, and for the
 commands whose operand it reads (`readsArg`) the operand byte `convert_track` writes — the index
 offset by the number of subroutines / macro tracks, cut to a byte.  `[]` = the event emits no
@@ -27,9 +18,6 @@ def evIns (nS nM : Nat) (ev : MEv) : Ins :=
   else if ev.type = mds_INS ∨ ev.type = mds_PCM then [ev.type, (nS + nM + ev.arg) % 256]
   else if ev.type = mds_PEG then [ev.type, if ev.arg ≠ 0 then (nS + nM + ev.arg) % 256 else 0]
   else [ev.type]
-
-/-- loop depth after an event -/
-def dstep (ty d : Nat) : Nat := if ty = mds_LP then d + 1 else if ty = mds_LPF then d - 1 else d
 
 /-- one iteration of `convert_track`'s loop in closed form -/
 inductive Shape (nS nM : Nat) (e : Enc) (ev : MEv) (e' : Enc) : Prop
